@@ -226,7 +226,7 @@ def plan(tier, seed):
     ex = list(range(8))
     for hs in (0, 1, 4242):
         for part in ex:
-            specs.append(dict(kind='exhaustive', part=part, parts=len(ex), hashseed=hs, budget_s=tier_value(tier, 40, 300),
+            specs.append(dict(kind='exhaustive', part=part, parts=len(ex), hashseed=hs, budget_s=tier_value(tier, 180, 600),
                               stride=tier_value(tier, 7, 1)))
         for part in range(tier_value(tier, 1, 4)):
             specs.append(dict(kind='random', part=part, hashseed=hs, count=tier_value(tier, 300, 40000), budget_s=tier_value(tier, 40, 300)))
